@@ -8,7 +8,7 @@ import json, os, subprocess, sys, time, shutil
 
 ROOT = os.path.dirname(os.path.abspath(__file__))
 SEEDED = os.path.join(ROOT, "seeded")
-VWT = "/tmp/mut/verify_wt"
+VWT = os.environ.get("VERIF_MUT_WT", "/tmp/mut/verify_wt")
 
 
 def sh(cmd, **kw):
@@ -23,7 +23,7 @@ def ensure_wt():
 
 
 def run_demo(demo, wt):
-    home = f"/tmp/mut/home_verify"
+    home = VWT + "_home"
     os.makedirs(home, exist_ok=True)
     env = dict(os.environ, PYTHONPATH=os.path.join(wt, "src"), HOME=home, PYTHONWARNINGS="ignore")
     r = subprocess.run(["/venv/bin/python", demo], capture_output=True, text=True, env=env, cwd=wt, timeout=600)
@@ -92,6 +92,6 @@ def detect(sid, modules, tier="quick", extra=""):
 
 if __name__ == "__main__":
     if sys.argv[1] == "verify":
-        verify(sys.argv[2], sys.argv[3])
+        verify(sys.argv[2], sys.argv[3], *(sys.argv[4:5]))
     elif sys.argv[1] == "detect":
         detect(sys.argv[2], sys.argv[3:])
